@@ -159,9 +159,11 @@ Definition outputs_as_expected (c : case10) : bool :=
 Definition outputs_are_substitution (c : case10) (vars : list (str * str)) : bool :=
   let r := c_rule c in
   let sub := simul_longest vars in
-  let loc := match r_target r with Some t => if is_nil t then None else Some (sub t) | None => None end in
+  (* skipped marketing parameters are appended to the RENDERED target ('?' or '&' according to the rendered text) *)
+  let fwd := fun v => with_skipped v (request_of c) in
+  let loc := match r_target r with Some t => if is_nil t then None else Some (fwd (sub t)) | None => None end in
   opt_eqb str_eqb (o_location c) loc
-  && opt_eqb str_eqb (o_target c) (option_map sub (r_target r))
+  && opt_eqb str_eqb (o_target c) (option_map (fun t => fwd (sub t)) (r_target r))
   && list_eqb str_eqb (o_hvalues c) ((match loc with Some l => [l] | None => [] end) ++ map sub (r_header_filters r))
   && list_eqb bf_eqb (o_bvalues c)
        (map (fun f => match f with
@@ -189,8 +191,8 @@ Definition property_holds (c : case10) : bool :=
       && (negb (o_match c)
           || (list_eqb pair_eqb (o_captured c) (c_expect_captured c)
               && outputs_as_expected c
-              (* the generator's substitution agrees with the reference substitution of the theorems (skipped
-                 parameters are never configured in these cases) *)
+              (* the generator's substitution agrees with the reference substitution of the theorems (with the skipped
+                 marketing parameters forwarded, in the cases that configure them) *)
               && outputs_are_substitution c (c_expect_variables c)))
   | SAmb =>
       negb (o_panic c)
@@ -212,6 +214,10 @@ Definition mk_cfg10 (ihc ihdc ipqc : bool) : config :=
   {| ignore_host_case := ihc; ignore_header_case := ihdc; ignore_path_and_query_case := ipqc;
      ignore_marketing_query_params := true; marketing_query_params := [];
      pass_marketing_query_params_to_target := false; always_match_any_host := false |}.
+Definition mk_cfg10m (ihc ihdc ipqc : bool) (mk : list str) (pass : bool) : config :=
+  {| ignore_host_case := ihc; ignore_header_case := ihdc; ignore_path_and_query_case := ipqc;
+     ignore_marketing_query_params := true; marketing_query_params := mk;
+     pass_marketing_query_params_to_target := pass; always_match_any_host := false |}.
 Definition mk_tr (kind : option str) (options : option (list (str * str))) : transformer :=
   {| t_kind := kind; t_options := options |}.
 Definition mk_marker (name regex : str) (ts : list transformer) : api_marker :=
